@@ -49,9 +49,26 @@ import shutil
 import common
 
 Z, OZ, B, NONE, UNIT = 'Z', 'optZ', 'bool', 'none', 'unit'
+OB, S, OS, Q, OQ = 'optB', 'str', 'optS', 'Q', 'optQ'       # T-int 2: tri-state flags, opaque strings, rationals
+OPT_OF = {Z: OZ, B: OB, S: OS, Q: OQ}
+BASE_OF = {v: k for k, v in OPT_OF.items()}
+COQ_BASE = {Z: 'Z', B: 'bool', S: 'string', Q: 'Q'}
 SENT = '\x00'
-EXC_NAMES = {'ValueError', 'IndexError', 'TypeError', 'KeyError', 'AttributeError', 'RuntimeError',
-             'NotImplementedError', 'AssertionError', 'ZeroDivisionError', 'OverflowError'}
+
+
+def is_exception_name(name):
+    """any builtin exception class (ValueError, LookupError, OSError, ...)"""
+    import builtins
+    c = getattr(builtins, name, None)
+    return isinstance(c, type) and issubclass(c, BaseException)
+
+
+def is_enum(t):
+    return isinstance(t, tuple) and t[0] == 'enum'
+
+
+def enum_coq(name):
+    return 'E_' + ident(name)
 CMP = {ast.Lt: '<?', ast.LtE: '<=?', ast.Gt: '>?', ast.GtE: '>=?'}
 DTYPE_WIDTH = {'np.dtype(np.uint8)': 8, 'np.dtype(np.uint16)': 16, 'np.dtype(np.uint32)': 32}
 
@@ -77,8 +94,12 @@ def coq_type(t):
         return 'Z'
     if t in (OZ, NONE):
         return 'option Z'
-    if t == B:
-        return 'bool'
+    if t in COQ_BASE:
+        return COQ_BASE[t]
+    if t in BASE_OF:
+        return f'(option {COQ_BASE[BASE_OF[t]]})'
+    if is_enum(t):
+        return enum_coq(t[1])
     if t == UNIT:
         return 'unit'
     if isinstance(t, tuple) and t[0] == 'tuple':
@@ -94,6 +115,9 @@ def join(ts):
         return ts[0]
     if all(t in (Z, OZ, NONE) for t in ts):
         return OZ
+    for base, opt in OPT_OF.items():
+        if all(t in (base, opt, NONE) for t in ts):
+            return opt
     raise Refuse(f'branches give incompatible types {ts}')
 
 
@@ -104,11 +128,20 @@ def coerce(term, frm, to):
         return f'(Some {term})'
     if to == OZ and frm == NONE:
         return term
+    if to in BASE_OF and frm == BASE_OF[to]:
+        return f'(Some {term})'
+    if to in BASE_OF and frm == NONE:
+        return f'(@None {COQ_BASE[BASE_OF[to]]})'
     raise Refuse(f'cannot coerce {frm} to {to}')
 
 
 def zlit(n):
     return f'({n})' if n < 0 else str(n)
+
+
+def var(nm):
+    """Gallina variable of a Python local / store slot"""
+    return 'v_' + nm.replace('.', '_')
 
 
 def ident(s):
@@ -123,6 +156,16 @@ def annotation_type(node):
         return OZ
     if t == 'bool':
         return B
+    if t in ('bool|None', 'None|bool', 'Optional[bool]'):
+        return OB
+    if t == 'str':
+        return S
+    if t in ('str|None', 'None|str', 'Optional[str]'):
+        return OS
+    if t == 'float':
+        return Q
+    if t in ('float|None', 'None|float', 'Optional[float]'):
+        return OQ
     raise Refuse(f'unsupported parameter annotation `{t}`')
 
 
@@ -130,7 +173,15 @@ def contains(stmts, kinds):
     return any(isinstance(n, kinds) for s in stmts for n in ast.walk(s))
 
 
-def assigned_names(stmts):
+def store_key(tg, stores):
+    """`self.KW` for a declared store slot KW, else None"""
+    if (stores and isinstance(tg, ast.Attribute) and isinstance(tg.value, ast.Name) and tg.value.id == 'self'
+            and tg.attr in stores):
+        return 'self.' + tg.attr
+    return None
+
+
+def assigned_names(stmts, stores=None):
     out = []
     for s in stmts:
         for n in ast.walk(s):
@@ -141,15 +192,27 @@ def assigned_names(stmts):
                 tg = n.target
             if isinstance(tg, ast.Name) and tg.id not in out:
                 out.append(tg.id)
+            sk = store_key(tg, stores)
+            if sk is not None and sk not in out:
+                out.append(sk)
     return out
 
 
 class Translator:
-    def __init__(self, fn, name, params=None, outputs=None, attr_types=None, body=None):
+    def __init__(self, fn, name, params=None, outputs=None, attr_types=None, body=None, enums=None, stores=None,
+                 consts=None):
         """fn: ast.FunctionDef; params: [(python name, type)] overrides the signature (fragments);
-        outputs: names returned as a tuple when the statement list falls off its end (fragments)."""
+        outputs: names returned as a tuple when the statement list falls off its end (fragments);
+        enums: {python enum class name: [member names]} (closed enums, read from the current source);
+        stores: attribute names KW such that `self.KW = e` is a write to an output slot (initially absent);
+        consts: {module-level name: (term, type)} (read from the current source)."""
         self.fn, self.name = fn, name
         self.attr_types = attr_types or {}
+        self.enums = enums or {}
+        self.stores = list(stores or [])
+        self.consts = consts or {}
+        self.self_maps = {}          # attribute name -> {enum constructor: string}  (set by translate())
+        self.uses_q = False
         self.outputs = outputs
         self.body = body if body is not None else fn.body
         self.extra = {}            # source text -> (coq name, type)   extra parameters
@@ -170,7 +233,7 @@ class Translator:
                 params.append((p.arg, annotation_type(p.annotation)))
         self.params = params
         self.fn_params = {p.arg for p in fn.args.args + fn.args.kwonlyargs}
-        self.assigned = set(assigned_names(self.body))
+        self.assigned = set(assigned_names(self.body, self.stores))
         # single-use check for iterators
         self.iter_vars = set()
 
@@ -181,7 +244,10 @@ class Translator:
 
     def extra_param(self, key, base, ty):
         if key not in self.extra:
-            self.extra[key] = ('a_' + ident(base), ty)
+            nm = 'a_' + ident(base)
+            if any(n == nm for n, _ in self.extra.values()):
+                raise Refuse(f'two different observations would get the same parameter name {nm}')
+            self.extra[key] = (nm, ty)
         return self.extra[key]
 
     def to_int(self, node, term, ty, k):
@@ -235,11 +301,141 @@ class Translator:
         if (isinstance(node, ast.Attribute) and isinstance(node.value, ast.Attribute)
                 and isinstance(node.value.value, ast.Name) and node.value.value.id == 'self'):
             return src(node), f'{node.value.attr}_{node.attr}'       # self.x.y
+        if (isinstance(node, ast.Attribute) and isinstance(node.value, ast.Attribute)
+                and isinstance(node.value.value, ast.Name) and node.value.value.id != 'self'
+                and self.fixed_param(node.value.value) is not None):
+            return src(node), f'{node.value.value.id}_{node.value.attr}_{node.attr}'       # p.x.y
         if (isinstance(node, ast.Subscript) and isinstance(node.value, ast.Attribute)
                 and isinstance(node.value.value, ast.Name) and node.value.value.id == 'self'
                 and isinstance(node.slice, ast.Name) and node.slice.id not in self.assigned):
             return src(node), f'{node.value.attr}_{node.slice.id}'
         return None
+
+    # ------------------------------------------------------------------ T-int 2 helpers
+    def qlit(self, node, v):
+        """float literal read as the decimal rational its source text denotes (floats are modelled over Q)"""
+        from fractions import Fraction
+        import math
+        if not math.isfinite(v):
+            refuse(node, 'non-finite float literal')
+        text = src(node).replace('_', '').replace(' ', '')
+        try:
+            fr = Fraction(text)
+        except (ValueError, ZeroDivisionError):
+            refuse(node, 'float literal not readable as a decimal rational')
+        if float(fr) != v:
+            refuse(node, 'float literal not readable as a decimal rational')
+        self.uses_q = True
+        return f'({fr.numerator} # {fr.denominator})%Q'
+
+    def slit(self, node, v):
+        if not all(32 <= ord(c) < 127 for c in v):
+            refuse(node, 'string literal outside printable ASCII')
+        return '"' + v.replace('"', '""') + '"%string'
+
+    def enum_member(self, node):
+        """`Enum.MEMBER` over a declared closed enum -> (constructor, type)"""
+        if isinstance(node, ast.Attribute) and isinstance(node.value, ast.Name) and node.value.id in self.enums \
+                and node.value.id not in self.assigned and node.value.id not in self.fn_params:
+            e = node.value.id
+            if node.attr not in self.enums[e]:
+                refuse(node, f'`{node.attr}` is not a member of the enum {e} as currently defined')
+            return f'{enum_coq(e)}_{node.attr}', ('enum', e)
+        return None
+
+    def fixed_param(self, node):
+        """name of a function parameter that is never assigned in the translated statements, else None"""
+        if isinstance(node, ast.Name) and node.id in self.fn_params and node.id not in self.assigned:
+            return node.id
+        return None
+
+    def type_text(self, node):
+        """a class expression inside isinstance(): dotted names and tuples of them"""
+        if isinstance(node, ast.Name):
+            return node.id
+        if isinstance(node, ast.Attribute):
+            return self.type_text(node.value) + '.' + node.attr
+        if isinstance(node, ast.Tuple) and node.elts:
+            return '(' + ', '.join(self.type_text(e) for e in node.elts) + ')'
+        refuse(node, 'class expression in isinstance() is not a dotted name / tuple of dotted names')
+
+    def abstract(self, key, base, ty):
+        """an observation of a fixed parameter that the grammar does not interpret -> extra parameter"""
+        return self.extra_param(key, base, ty)
+
+    def str_predicate(self, node, env):
+        """(term, type) for len(p) / p.startswith('lit') / p.endswith('lit') / 'lit' in p / p == 'lit' on a fixed
+        parameter p whose current type is str (declared `str`, or `str | None` narrowed), else None"""
+        def is_str_param(n):
+            p = self.fixed_param(n)
+            return p is not None and p in env and env[p][1] == S
+
+        def lit(n):
+            return isinstance(n, ast.Constant) and isinstance(n.value, str)
+        if isinstance(node, ast.Call) and not node.keywords and len(node.args) == 1:
+            f, a = node.func, node.args[0]
+            if isinstance(f, ast.Name) and f.id == 'len' and is_str_param(a):
+                return self.abstract(f'len({a.id})', f'len_{a.id}', Z)
+            if isinstance(f, ast.Attribute) and f.attr in ('startswith', 'endswith') and is_str_param(f.value) and lit(a):
+                self.slit(a, a.value)
+                return self.abstract(f'{f.value.id}.{f.attr}({a.value!r})',
+                                     f'{f.value.id}_{f.attr}_{self.word(a.value)}', B)
+        if isinstance(node, ast.Compare) and len(node.ops) == 1:
+            l, r, op = node.left, node.comparators[0], node.ops[0]
+            if isinstance(op, (ast.In, ast.NotIn)) and lit(l) and is_str_param(r):
+                self.slit(l, l.value)
+                t, ty = self.abstract(f'{l.value!r} in {r.id}', f'{r.id}_contains_{self.word(l.value)}', B)
+                return (t if isinstance(op, ast.In) else f'(negb {t})'), B
+            if isinstance(op, (ast.Eq, ast.NotEq)) and lit(r) and is_str_param(l):
+                self.slit(r, r.value)
+                t, ty = self.abstract(f'{l.id} == {r.value!r}', f'{l.id}_is_{self.word(r.value)}', B)
+                return (t if isinstance(op, ast.Eq) else f'(negb {t})'), B
+        return None
+
+    def dotted_const(self, node, env):
+        """text of a dotted name (np.uint8, RLELossless) whose root is not a local, parameter, enum or self"""
+        parts, n = [], node
+        while isinstance(n, ast.Attribute):
+            parts.append(n.attr)
+            n = n.value
+        if not isinstance(n, ast.Name):
+            return None
+        r = n.id
+        if r == 'self' or r in env or r in self.fn_params or r in self.assigned or r in self.enums or r in self.consts:
+            return None
+        return '.'.join([r] + parts[::-1])
+
+    def opaque_eq(self, node, env):
+        """`x == CONST`, `x != CONST`, `x in (CONST, ...)`, `x not in (...)` where x is a fixed parameter or an
+        attribute chain of one / of self and CONST a dotted module-level name -> boolean observations"""
+        if not (isinstance(node, ast.Compare) and len(node.ops) == 1):
+            return None
+        l, r, op = node.left, node.comparators[0], node.ops[0]
+        if self.fixed_param(l) is not None:
+            if l.id in env and env[l.id][1] in (Z, OZ, B, OB, Q, OQ):
+                return None          # numbers are compared as numbers
+            lt, lb = l.id, l.id
+        elif self.attr_key(l) is not None and not src(l) in env:
+            lt, lb = self.attr_key(l)
+        else:
+            return None
+        if isinstance(op, (ast.Eq, ast.NotEq)):
+            cs = [r]
+        elif isinstance(op, (ast.In, ast.NotIn)) and isinstance(r, (ast.Tuple, ast.List)) and r.elts:
+            cs = list(r.elts)
+        else:
+            return None
+        ds = [self.dotted_const(c, env) for c in cs]
+        if any(d is None for d in ds):
+            return None
+        ts = [self.abstract(f'{lt} == {d}', f'{lb}_is_{ident(d)}', B)[0] for d in ds]
+        b = ts[0] if len(ts) == 1 else '(' + ' || '.join(ts) + ')'
+        return (b if isinstance(op, (ast.Eq, ast.In)) else f'(negb {b})'), B
+
+    @staticmethod
+    def word(text):
+        """identifier fragment for a string literal (injective: non-alphanumerics by code point)"""
+        return ''.join(c if c.isalnum() else f'_x{ord(c):02x}' for c in text) or 'empty'
 
     # ------------------------------------------------------------------ expressions
     def expr(self, node, env, k):
@@ -251,7 +447,20 @@ class Translator:
                 return k('true' if v else 'false', B)
             if isinstance(v, int):
                 return k(zlit(v), Z)
+            if isinstance(v, float):
+                return k(self.qlit(node, v), Q)
+            if isinstance(v, str):
+                return k(self.slit(node, v), S)
             refuse(node, 'constant of unsupported type')
+        em = self.enum_member(node)
+        if em is not None:
+            return k(*em)
+        if isinstance(node, ast.Name) and node.id not in env and node.id in self.consts \
+                and node.id not in self.assigned and node.id not in self.fn_params:
+            t, ty = self.consts[node.id]
+            if ty == Q:
+                self.uses_q = True
+            return k(t, ty)
         if isinstance(node, ast.Name):
             if node.id in env:
                 if node.id in self.iter_vars:
@@ -261,14 +470,28 @@ class Translator:
                         refuse(node, 'iterator variable used more than once')
                 return k(*env[node.id])
             refuse(node, 'name is not a parameter or a local assigned on every path')
+        if (isinstance(node, ast.Subscript) and isinstance(node.value, ast.Attribute)
+                and isinstance(node.value.value, ast.Name) and node.value.value.id == 'self'
+                and node.value.attr in self.self_maps):
+            em = self.enum_member(node.slice)
+            if em is None:
+                refuse(node, 'subscript of a declared self map by something other than an enum member')
+            table = self.self_maps[node.value.attr]
+            if em[0] not in table:
+                return '(Err "KeyError")'
+            return k(self.slit(node, table[em[0]]), S)
         ak = self.attr_key(node)
         if ak is not None:
             key, base = ak
-            if key in env:           # narrowed
+            if key in env:           # narrowed, or a store slot
+                if key.startswith('self.') and key[5:] in self.stores and env[key][1] not in (Z, B, S, Q):
+                    refuse(node, 'read of a store slot that is not written on every path')
                 return k(*env[key])
             return k(*self.extra_param(key, base, self.attr_types.get(key, Z)))
         if isinstance(node, ast.UnaryOp):
             if isinstance(node.op, ast.USub):
+                if isinstance(node.operand, ast.Constant) and isinstance(node.operand.value, float):
+                    return k(self.qlit(node, -node.operand.value), Q)
                 return self.ints([node.operand], env, lambda a: k(f'(- {a[0]})', Z))
             if isinstance(node.op, ast.UAdd):
                 return self.ints([node.operand], env, lambda a: k(a[0], Z))
@@ -328,17 +551,56 @@ class Translator:
 
     def compare(self, node, env, k):
         ops, operands = node.ops, [node.left] + node.comparators
+        sp = self.str_predicate(node, env) or self.opaque_eq(node, env)
+        if sp is not None:
+            return k(*sp)
+        if len(ops) == 1 and isinstance(ops[0], (ast.In, ast.NotIn)):
+            # x in (E.A, E.B) over a closed enum
+            l, r = operands
+            if not (isinstance(r, (ast.Tuple, ast.List, ast.Set)) and r.elts):
+                refuse(node, '`in` with something other than a non-empty literal collection of enum members')
+            ms = [self.enum_member(e) for e in r.elts]
+            pl = self.pure(l, env)
+            if pl is None or not is_enum(pl[1]) or any(m is None or m[1] != pl[1] for m in ms):
+                refuse(node, '`in` outside `<enum value> in (Enum.A, Enum.B, ...)`')
+            b = '(' + ' || '.join(f'({enum_coq(pl[1][1])}_eqb {pl[0]} {m[0]})' for m in ms) + ')'
+            return k(b if isinstance(ops[0], ast.In) else f'(negb {b})', B)
+        r_none = isinstance(operands[1], ast.Constant) and operands[1].value is None
+        old_form = len(ops) != 1 or r_none or (isinstance(operands[1], ast.Constant) and isinstance(operands[1].value, str)
+                                               and self.attr_key(operands[0]) is not None)
+        if not old_form and isinstance(ops[0], (ast.Eq, ast.NotEq, ast.Is, ast.IsNot)):
+            pl, pr = self.pure(operands[0], env), self.pure(operands[1], env)
+            if pl is not None and pr is not None and is_enum(pl[1]) and pl[1] == pr[1]:
+                # enum members are singletons: `is` and `==` coincide on values of one plain Enum
+                b = f'({enum_coq(pl[1][1])}_eqb {pl[0]} {pr[0]})'
+                return k(b if isinstance(ops[0], (ast.Eq, ast.Is)) else f'(negb {b})', B)
+            if pl is not None and pr is not None and (is_enum(pl[1]) or is_enum(pr[1])):
+                refuse(node, 'comparison of an enum value with something of another type')
+        if not old_form and (type(ops[0]) in CMP or isinstance(ops[0], (ast.Eq, ast.NotEq))):
+            pl, pr = self.pure(operands[0], env), self.pure(operands[1], env)
+            if pl is not None and pr is not None and Q in (pl[1], pr[1]):
+                def q(p):
+                    if p[1] == Q:
+                        return p[0]
+                    if p[1] == Z:
+                        return f'(inject_Z {p[0]})'
+                    refuse(node, f'comparison between a float and a value of type {p[1]}')
+                a, b = q(pl), q(pr)
+                t = {ast.Lt: f'(py_qlt {a} {b})', ast.Gt: f'(py_qlt {b} {a})', ast.LtE: f'(py_qle {a} {b})',
+                     ast.GtE: f'(py_qle {b} {a})', ast.Eq: f'(py_qeq {a} {b})',
+                     ast.NotEq: f'(negb (py_qeq {a} {b}))'}[type(ops[0])]
+                return k(t, B)
         if len(ops) == 1 and isinstance(ops[0], (ast.Is, ast.IsNot)):
             r = operands[1]
             if not (isinstance(r, ast.Constant) and r.value is None):
                 refuse(node, '`is` with something other than None')
 
             def kk(t, ty):
-                if ty == Z:
+                if ty in OPT_OF or is_enum(ty):
                     b = 'false'
                 elif ty == NONE:
                     b = 'true'
-                elif ty == OZ:
+                elif ty in BASE_OF:
                     b = f'(is_none {t})'
                 else:
                     refuse(node, f'`is None` on a value of type {ty}')
@@ -405,8 +667,44 @@ class Translator:
                     t = self.fresh()
                     return f'bind (py_ceildiv {z[0]} {z[1]}) (fun {t} =>\n{k(t, Z)})'
                 return self.ints([d.left, d.right], env, kk)
+            # int(((e / K) % 1) * K), K a power-of-two literal: fractional part of e / K in units of 1 / K
+            # (-> e mod K; float steps trusted as exact, see Base/PyExt.v py_frac_scaled)
+            def p2(n):
+                return (isinstance(n, ast.Constant) and isinstance(n.value, int) and not isinstance(n.value, bool)
+                        and n.value >= 2 and n.value & (n.value - 1) == 0)
+            if (isinstance(a, ast.BinOp) and isinstance(a.op, ast.Mult) and p2(a.right)
+                    and isinstance(a.left, ast.BinOp) and isinstance(a.left.op, ast.Mod)
+                    and isinstance(a.left.right, ast.Constant) and a.left.right.value == 1
+                    and not isinstance(a.left.right.value, bool)
+                    and isinstance(a.left.left, ast.BinOp) and isinstance(a.left.left.op, ast.Div)
+                    and p2(a.left.left.right) and a.left.left.right.value == a.right.value):
+                kk = a.right.value
+                return self.ints([a.left.left.left], env, lambda z: k(f'(py_frac_scaled {z[0]} {kk})', Z))
             return self.expr(a, env, lambda t, ty: k(t, Z) if ty == Z else refuse(node, f'int() of a {ty}'))
+        sp = self.str_predicate(node, env)
+        if sp is not None:
+            return k(*sp)
+        if f == 'isinstance' and len(args) == 2:
+            p = self.fixed_param(args[0])
+            if p is None:
+                refuse(node, 'isinstance() of something other than a parameter that is never assigned')
+            tt = self.type_text(args[1])
+            return k(*self.abstract(f'isinstance({p}, {tt})', f'isinstance_{p}_{ident(tt)}', B))
+        if f == 'bool' and len(args) == 1:
+            def kb(t, ty):
+                if ty == B:
+                    return k(t, B)
+                if ty == Z:
+                    return k(f'(negb ({t} =? 0))', B)
+                refuse(node, f'bool() of a value of type {ty}')
+            return self.expr(args[0], env, kb)
+        if f == 'str' and len(args) == 1:
+            # str(x) of a str is x (for a str subclass: a plain str with the same characters)
+            return self.expr(args[0], env, lambda t, ty: k(t, S) if ty == S else refuse(node, f'str() of a {ty}'))
         if f == 'abs' and len(args) == 1:
+            pa = self.pure(args[0], env)
+            if pa is not None and pa[1] == Q:
+                return k(f'(py_qabs {pa[0]})', Q)
             return self.ints(args, env, lambda a: k(f'(Z.abs {a[0]})', Z))
         if f in ('min', 'max') and len(args) >= 2:
             fn = 'Z.min' if f == 'min' else 'Z.max'
@@ -483,13 +781,13 @@ class Translator:
                     t, ty = env[key] if key in env else self.extra_param(key, self.attr_key(l)[1],
                                                                           self.attr_types.get(key, Z))
                 k_none, k_some = (kt, kf) if isinstance(node.ops[0], ast.Is) else (kf, kt)
-                if ty == Z:
+                if ty in OPT_OF or is_enum(ty):
                     return k_some(env)
                 if ty == NONE:
                     return k_none(env)
-                if ty == OZ:
+                if ty in BASE_OF:
                     e_some = dict(env)
-                    e_some[key] = (t, Z)          # the Gallina name is shadowed by the payload
+                    e_some[key] = (t, BASE_OF[ty])          # the Gallina name is shadowed by the payload
                     return f'(match {t} with\n| Some {t} => {k_some(e_some)}\n| None => {k_none(env)}\nend)'
         return self.expr(node, env, lambda t, ty: f'(if {t}\nthen {kt(env)}\nelse {kf(env)})' if ty == B
                          else refuse(node, f'condition of type {ty} (truthiness of non-bools is not supported)'))
@@ -516,7 +814,7 @@ class Translator:
             if s.cause is not None and not (isinstance(s.cause, ast.Constant) and s.cause.value is None):
                 refuse(s, 'raise ... from <expr>')
             cls = e.func if isinstance(e, ast.Call) else e
-            if not (isinstance(cls, ast.Name) and cls.id in EXC_NAMES):
+            if not (isinstance(cls, ast.Name) and is_exception_name(cls.id)):
                 refuse(s, 'raise of something other than a builtin exception class')
             return f'(Err "{cls.id}")'
         if isinstance(s, (ast.Assign, ast.AnnAssign, ast.AugAssign)):
@@ -533,15 +831,21 @@ class Translator:
                     s.target, ast.Name) else s.target, op=s.op, right=s.value)
                 ast.copy_location(val, s)
                 ast.fix_missing_locations(val)
-            if not isinstance(tg, ast.Name):
-                refuse(s, 'assignment to something other than a simple name')
-            v = f'v_{tg.id}'
+            sk = store_key(tg, self.stores)
+            if sk is not None and isinstance(s, ast.AugAssign):
+                refuse(s, 'augmented assignment to a store slot')
+            if not isinstance(tg, ast.Name) and sk is None:
+                refuse(s, 'assignment to something other than a simple name (or a declared store slot of self)')
+            key = sk if sk is not None else tg.id
+            v = var(key)
 
             def kk(t, ty):
                 if isinstance(ty, tuple) and ty[0] == 'iter':
-                    self.iter_vars.add(tg.id)
+                    self.iter_vars.add(key)
+                if sk is not None and ty not in (Z, B, S, Q):
+                    refuse(s, f'store of a value of type {ty}')
                 e2 = dict(env)
-                e2[tg.id] = (v, ty)
+                e2[key] = (v, ty)
                 return f'let {v} := {t} in\n{nxt(e2)}'
             return self.expr(val, env, kk)
         if isinstance(s, ast.If):
@@ -559,7 +863,7 @@ class Translator:
             return self.block(rest, e, kont)
         if contains(s.body + s.orelse, ast.Return):
             return self.cond(s.test, env, lambda e: self.block(s.body, e, nxt), lambda e: self.block(s.orelse, e, nxt))
-        names = assigned_names(s.body + s.orelse)
+        names = assigned_names(s.body + s.orelse, self.stores)
         ends = []
 
         def rec(e):
@@ -589,21 +893,23 @@ class Translator:
         for nm in dropped:
             e2.pop(nm, None)
         for nm in names:
-            e2[nm] = (f'v_{nm}', jt[nm])
+            e2[nm] = (var(nm), jt[nm])
         if not names:
             pat = '_'
         elif len(names) == 1:
-            pat = f'v_{names[0]}'
+            pat = var(names[0])
         else:
-            pat = "'(" + ', '.join(f'v_{nm}' for nm in names) + ')'
+            pat = "'(" + ', '.join(var(nm) for nm in names) + ')'
         inner = nxt(e2)
-        if names and inner in ('ret (' + ', '.join(f'v_{nm}' for nm in names) + ')', f'ret v_{names[0]}'):
+        if names and inner in ('ret (' + ', '.join(var(nm) for nm in names) + ')', f'ret {var(names[0])}'):
             return blk                  # `bind m ret` = m
         return f'bind ({blk}) (fun {pat} =>\n{inner})'
 
     # ------------------------------------------------------------------ top level
     def translate(self):
         env = {p: (f'v_{p}', ty) for p, ty in self.params}
+        for kw in self.stores:
+            env['self.' + kw] = ('(@None Z)', NONE)      # slot not written yet = attribute absent
 
         def fall_off(e):
             if self.outputs is not None:
@@ -828,6 +1134,139 @@ def frag_plane_position_offsets(fn):
     return body[i:i + 3]
 
 
+def _cut(fn, what, first, last_pred, frozen, after_frozen=(), at_start=False):
+    """statements of fn from the unique one whose text starts with `first` up to and including the first later
+    one satisfying last_pred; none of `frozen` may be assigned before the cut (they are parameters of the
+    fragment) and none of `after_frozen` after it (they are its outputs, used by the rest of the function)."""
+    body = _stmts(fn)
+    texts = [src(s) for s in body]
+    hits = [i for i, t in enumerate(texts) if t.startswith(first)]
+    if at_start and hits[:1] == [0]:
+        hits = [0]
+    if len(hits) != 1:
+        raise Refuse(f'{what}: expected exactly one statement starting with `{first}`, found {len(hits)}')
+    i = hits[0]
+    js = [j for j in range(i, len(body)) if last_pred(texts[j])]
+    if not js:
+        raise Refuse(f'{what}: end of the fragment not found')
+    j = js[0]
+    for s in body[:i]:
+        bad = set(assigned_names([s])) & set(frozen)
+        if bad:
+            raise Refuse(f'{what}: {sorted(bad)} assigned before the fragment')
+    for s in body[j + 1:]:
+        bad = set(assigned_names([s])) & set(after_frozen)
+        if bad:
+            raise Refuse(f'{what}: {sorted(bad)} reassigned after the fragment')
+    return body[i:j + 1], body[:i], body[j + 1:]
+
+
+C06_FLAGS = ['apply_real_world_transform', 'apply_modality_transform', 'apply_voi_transform',
+             'apply_palette_color_lut', 'apply_icc_profile']
+C06_USES = ['use_rwvm', 'require_rwvm', 'use_modality', 'require_modality', 'use_voi', 'require_voi',
+            'use_palette_color', 'require_palette_color', 'use_icc', 'require_icc']
+
+
+def frag_pixel_transform_flags(fn):
+    """_CombinedPixelTransform.__init__: from `if apply_real_world_transform is None:` up to and including
+    `if require_icc and self._color_type == _ImageColorType.MONOCHROME: raise ...` - the tri-state flag
+    resolution and every incompatibility check.  `self._color_type` must be assigned exactly once, by
+    `self._color_type = _deduce_color_type(image)` before the fragment (the types of the five flags are read
+    from their current annotations); the use_* / require_* results must not be reassigned afterwards."""
+    what = '_CombinedPixelTransform.__init__'
+    frag, before, after = _cut(fn, what, 'if apply_real_world_transform is None:',
+                               lambda t: t.startswith('if require_icc and'), C06_FLAGS, C06_USES)
+    sets = [src(s) for s in _stmts(fn) for n in ast.walk(s)
+            if isinstance(n, (ast.Assign, ast.AugAssign, ast.AnnAssign))
+            and '_color_type' in src(n.targets[0] if isinstance(n, ast.Assign) else n.target)]
+    if sets != ['self._color_type = _deduce_color_type(image)'] or \
+            'self._color_type = _deduce_color_type(image)' not in [src(s) for s in before]:
+        raise Refuse(f'{what}: self._color_type is not assigned exactly once, before the flags: {sets}')
+    return frag
+
+
+C17_SLOTS = ['CodeValue', 'LongCodeValue', 'URNCodeValue', 'CodeMeaning', 'CodingSchemeDesignator',
+             'CodingSchemeVersion']
+
+
+def frag_coded_concept_init(fn):
+    """CodedConcept.__init__: the whole body after `super().__init__()` (which leaves an empty Dataset:
+    every store slot starts absent)."""
+    body = _stmts(fn)
+    if not body or src(body[0]) != 'super().__init__()':
+        raise Refuse('CodedConcept.__init__: the first statement is not `super().__init__()`')
+    return body[1:]
+
+
+C11_HEAD_PARAMS = ['sort', 'allow_duplicate_positions', 'allow_missing_positions', 'spacing_hint', 'rtol', 'atol']
+
+
+def frag_volume_positions_head(fn):
+    """get_volume_positions: everything from the first statement up to and including the tolerance chain
+    `if atol is not None and rtol is not None: raise TypeError ... else: rtol = <default>; atol = 0.0`
+    (flag guards, normalisation of spacing_hint, tolerance defaults); spacing_hint / rtol / atol must not be
+    reassigned afterwards."""
+    what = 'get_volume_positions'
+    frag, before, after = _cut(fn, what, 'if not sort:', lambda t: (t.startswith('if ') and 'atol is not None' in t.split('\n')[0]
+                                          and 'rtol is not None' in t.split('\n')[0]),
+                               C11_HEAD_PARAMS, ['spacing_hint', 'rtol', 'atol', 'sort', 'allow_duplicate_positions',
+                                                 'allow_missing_positions'], at_start=True)
+    if before:
+        raise Refuse(f'{what}: statements before `if not sort:`: `{src(before[0])[:60]}`')
+    return frag
+
+
+def frag_decode_bit_window(fn):
+    """frame.decode_frame: inside `if bits_allocated == 1 and not is_encapsulated:` the two assignments
+    `n_pixels = ...`, `pixel_offset = ...`; the statements around them (unpack_bits of the whole value, the slice
+    [pixel_offset:pixel_offset + n_pixels], the reshapes) must be textually unchanged."""
+    body = _stmts(fn)
+    ifs = [n for n in body if isinstance(n, ast.If) and src(n.test) == 'bits_allocated == 1 and (not is_encapsulated)']
+    if len(ifs) != 1 or ifs[0].orelse:
+        raise Refuse('decode_frame: no unique `if bits_allocated == 1 and not is_encapsulated:` without else')
+    i = body.index(ifs[0])
+    if [src(s) for s in body[:i]] != ['is_encapsulated = UID(transfer_syntax_uid).is_encapsulated']:
+        raise Refuse('decode_frame: the statements before the single-bit branch changed')
+    b = ifs[0].body
+    texts = [src(s) for s in b]
+    want_head = ['unpacked_frame = cast(np.ndarray, unpack_bits(value))']
+    want_tail = ['pixel_array = unpacked_frame[pixel_offset:pixel_offset + n_pixels]',
+                 'if samples_per_pixel > 1:\n    return pixel_array.reshape(rows, columns, samples_per_pixel)',
+                 'return pixel_array.reshape(rows, columns)']
+    if len(b) != 6 or texts[:1] != want_head or texts[3:] != want_tail:
+        raise Refuse('decode_frame: the single-bit branch around n_pixels / pixel_offset changed')
+    if [assigned_names([s]) for s in b[1:3]] != [['n_pixels'], ['pixel_offset']]:
+        raise Refuse('decode_frame: n_pixels / pixel_offset are not the two assignments after unpack_bits')
+    return b[1:3]
+
+
+PM_BITS_SLOTS = ['BitsAllocated', 'BitsStored', 'HighBit', 'PixelRepresentation']
+
+
+def frag_pm_bits(fn):
+    """ParametricMap.__init__: the `if pixel_data_type == _PixelDataType.USHORT: ... else: raise` chain right after
+    `pixel_data_type, pixel_data_attr = self._get_pixel_data_type_and_attr(pixel_array)`; none of the four slots
+    may be stored anywhere else in __init__."""
+    body = _stmts(fn)
+    texts = [src(s) for s in body]
+    call = 'pixel_data_type, pixel_data_attr = self._get_pixel_data_type_and_attr(pixel_array)'
+    if texts.count(call) != 1:
+        raise Refuse('ParametricMap.__init__: no unique `' + call + '`')
+    i = texts.index(call)
+    if i + 1 >= len(body) or not (isinstance(body[i + 1], ast.If)
+                                  and src(body[i + 1].test) == 'pixel_data_type == _PixelDataType.USHORT'):
+        raise Refuse('ParametricMap.__init__: the pixel data type chain does not follow the call')
+    for s in body[:i] + body[i + 2:]:
+        for n in ast.walk(s):
+            if isinstance(n, ast.Attribute) and isinstance(n.ctx, ast.Store) and n.attr in PM_BITS_SLOTS:
+                raise Refuse(f'ParametricMap.__init__: {n.attr} is also stored outside the chain')
+            if isinstance(n, ast.Constant) and n.value in PM_BITS_SLOTS:
+                raise Refuse(f'ParametricMap.__init__: {n.value} mentioned by name outside the chain')
+        if 'pixel_data_type' in assigned_names([s]) and s is not body[i]:
+            raise Refuse('ParametricMap.__init__: pixel_data_type reassigned')
+    return [body[i + 1]]
+
+
 IMG, SPATIAL, SEGSOP, VOLUME = 'image.py', 'spatial.py', 'seg/sop.py', 'volume.py'
 FUNCTIONS = {
     # generated name -> how to find / cut the source
@@ -861,6 +1300,25 @@ FUNCTIONS = {
                                 params=[], attr_types={'val.start': OZ, 'val.stop': OZ}),
     'getitem_size': dict(file=VOLUME, path=['_VolumeBase', '_prepare_getitem_index'], fragment=frag_getitem_size,
                          params=[('first', Z), ('last', Z), ('step', Z)], outputs=['size']),
+    # ---- T-int 2 (tri-state flags, enums, opaque strings, store slots, rationals)
+    'pixel_transform_flags': dict(file=IMG, path=['_CombinedPixelTransform', '__init__'],
+                                  fragment=frag_pixel_transform_flags,
+                                  param_names=C06_FLAGS, outputs=C06_USES,
+                                  attr_types={'self._color_type': ('enum', '_ImageColorType')},
+                                  enums={'_ImageColorType': IMG}),
+    'volume_positions_head': dict(file=SPATIAL, path=['get_volume_positions'], fragment=frag_volume_positions_head,
+                                  param_names=C11_HEAD_PARAMS, outputs=['spacing_hint', 'rtol', 'atol'],
+                                  consts={'_DEFAULT_SPACING_RELATIVE_TOLERANCE': Q}),
+    'decode_bit_window': dict(file='frame.py', path=['decode_frame'], fragment=frag_decode_bit_window,
+                              param_names=['index', 'rows', 'columns', 'samples_per_pixel'],
+                              outputs=['n_pixels', 'pixel_offset']),
+    'pm_pixel_data_type': dict(file='pm/sop.py', path=['ParametricMap', '_get_pixel_data_type_and_attr'], params=[],
+                               enums={'_PixelDataType': 'pm/sop.py'}, self_maps={'_pixel_data_type_map': '_PixelDataType'}),
+    'pm_bits': dict(file='pm/sop.py', path=['ParametricMap', '__init__'], fragment=frag_pm_bits,
+                    params=[('pixel_data_type', ('enum', '_PixelDataType'))], enums={'_PixelDataType': 'pm/sop.py'},
+                    stores=PM_BITS_SLOTS, outputs=['self.' + k for k in PM_BITS_SLOTS]),
+    'coded_concept_init': dict(file='sr/coding.py', path=['CodedConcept', '__init__'], fragment=frag_coded_concept_init,
+                               stores=C17_SLOTS, outputs=['self.' + k for k in C17_SLOTS]),
 }
 
 # obligation key -> (generated function, hand model module, statement shown in the evidence)
@@ -924,6 +1382,35 @@ TARGETS = {
     'getitem_size/C08': dict(fn='getitem_size', statement=
                              'forall f l st, st <> 0 -> t_getitem_size f l st = '
                              'match PySlice.hd_size f l st with Some sz => Ok sz | None => Err "IndexError" end'),
+    'pixel_transform_flags/C06': dict(fn='pixel_transform_flags', statement=
+                                      'forall f ct, C06_Model.gate f ct = bind (t_pixel_transform_flags (flag (f_rwvm f)) '
+                                      '(flag (f_mod f)) (flag (f_voi f)) (flag (f_pal f)) (flag (f_icc f)) (colour ct)) '
+                                      '(fun ten booleans => Ok (Uses ...))   (TT/TF/TN = Some true/Some false/None; '
+                                      'Mono/Palette/Color = the members of _ImageColorType as defined now)'),
+    'volume_positions_head/C11': dict(fn='volume_positions_head', statement=
+                                      'forall sort dups missing hint rtol atol, t_volume_positions_head sort dups missing hint rtol atol = '
+                                      'if negb sort && (dups || missing) then Err "ValueError" else bind (C11_Model.norm_hint hint) '
+                                      '(fun h => bind (C11_Model.tolerances rtol atol) (fun (r, a) => Ok (h, r, a)));  hence head = Err k -> '
+                                      'get_volume_positions .. = Err k, head = Ok (h, r, a) -> the values the model continues with   '
+                                      '(floats over Q; float literals read as decimal rationals)'),
+    'decode_bit_window/C05': dict(fn='decode_bit_window', statement=
+                                  'forall idx R C spp, t_decode_bit_window idx R C spp = Ok (R*C*spp, (idx * (R*C*spp)) mod 8);  '
+                                  'forall bs sg idx R C spp v, C05_Model.decode_native 1 bs sg (R*C*spp) idx v = '
+                                  "bind (t_decode_bit_window idx R C spp) (fun '(n, off) => the n bits from bit off of "
+                                  'unpack_bits v, ValueError if fewer)   (int(((a / 8) % 1) * 8) read as a mod 8: trusted float steps)'),
+    'pm_pixel_data_type/C19': dict(fn='pm_pixel_data_type', statement=
+                                   'forall d, bind (t_pm_pixel_data_type (kind d = f) (d = float32) (d = float64) (kind d = u) (d = uint8) '
+                                   "(d = uint16)) (fun '(tag, name) => Ok (attr of tag, name)) = bind (C19_Model.pm_attr d) (fun aw => "
+                                   'Ok (fst aw, attr_name (fst aw)))   (observations of pixel_array.dtype instantiated by the model dtype)'),
+    'pm_bits/C19': dict(fn='pm_bits', statement=
+                        'forall d a w, C19_Model.pm_attr d = Ok (a, w) -> t_pm_bits (tag of a) w = Ok (8 * w, bs, hb, pr) with '
+                        '(bs, hb, pr) = (Some (8 * w), Some (8 * w - 1), Some 0) if a = PixelData else (None, None, None);  '
+                        'forall tag w, t_pm_bits tag w does not raise   (pixel_array.itemsize read as the width w in bytes)'),
+    'coded_concept_init/C17': dict(fn='coded_concept_init', statement=
+                                   'forall v s m ver, bind (t_coded_concept_init v s m ver (prefix "urn" v) (contains "://" v) '
+                                   '(slen v) (slen m)) (fun six slots => Ok (DS CodeValue LongCodeValue URNCodeValue CodeMeaning '
+                                   'CodingSchemeDesignator CodingSchemeVersion true)) = C17_Model.init v s m ver   (string '
+                                   'observations of the code instantiated by the model\'s prefix / contains / slen; str(x) = x)'),
 }
 FOR = {}
 for _k in TARGETS:
@@ -938,21 +1425,135 @@ Open Scope Z_scope.
 
 '''
 
+GEN_HEADER_EXT = '''(* GENERATED by harness/translate_int.py from {src} ({what}) - do not edit *)
+From Coq Require Import String ZArith List Bool QArith.
+From HD Require Import Base.Val Base.PyInt Base.PyExt.
+Import ListNotations.
+Open Scope string_scope.
+Open Scope Z_scope.
+
+'''
+
 _trees = {}
+
+
+def _tree(path):
+    if path not in _trees:
+        _trees[path] = ast.parse(open(path).read())
+    return _trees[path]
+
+
+def load_enum(tree, name):
+    """members of the closed enum `class name(Enum)` as the source defines it now: the class body must be
+    a docstring plus `MEMBER = <constant>` lines with pairwise different values (no aliases), nothing else"""
+    hits = [n for n in tree.body if isinstance(n, ast.ClassDef) and n.name == name]
+    if len(hits) != 1:
+        raise Refuse(f'expected exactly one class `{name}`, found {len(hits)}')
+    c = hits[0]
+    if [src(b) for b in c.bases] not in (['Enum'], ['enum.Enum']) or c.keywords or c.decorator_list:
+        raise Refuse(f'class {name} is not a plain `Enum` subclass')
+    members, values = [], []
+    for st in c.body:
+        if isinstance(st, ast.Expr) and isinstance(st.value, ast.Constant) and isinstance(st.value.value, str):
+            continue
+        if not (isinstance(st, ast.Assign) and len(st.targets) == 1 and isinstance(st.targets[0], ast.Name)
+                and isinstance(st.value, ast.Constant)):
+            raise Refuse(f'enum {name}: statement outside `MEMBER = <constant>`: `{src(st)[:60]}`')
+        if st.targets[0].id.startswith('_'):
+            raise Refuse(f'enum {name}: underscore name {st.targets[0].id}')
+        members.append(st.targets[0].id)
+        values.append(repr(st.value.value))
+    if not members or len(set(members)) != len(members) or len(set(values)) != len(values):
+        raise Refuse(f'enum {name}: empty, duplicate member or aliased value')
+    return members
+
+
+def enum_decl(name, members):
+    e = enum_coq(name)
+    out = f'Inductive {e} := ' + ' | '.join(f'{e}_{m}' for m in members) + '.\n'
+    out += f'Definition {e}_eqb (a b : {e}) : bool :=\n  match a, b with\n'
+    out += ''.join(f'  | {e}_{m}, {e}_{m} => true\n' for m in members)
+    out += ('  | _, _ => false\n' if len(members) > 1 else '') + '  end.\n\n'
+    return out
+
+
+def load_const(tree, name, ty):
+    """module-level `name = <literal>` (exactly one binding of the name at module level)"""
+    hits = [n for n in tree.body if name in assigned_names([n])]
+    if len(hits) != 1 or not isinstance(hits[0], (ast.Assign, ast.AnnAssign)) or hits[0].value is None:
+        raise Refuse(f'module constant {name}: expected exactly one module-level assignment')
+    for n in ast.walk(tree):
+        if isinstance(n, ast.Global) and name in n.names:
+            raise Refuse(f'module constant {name} is declared global somewhere')
+    tr = Translator(ast.parse('def f(): pass').body[0], 'const', params=[])
+    p = tr.pure(hits[0].value, {})
+    if p is None or p[1] != ty or not isinstance(hits[0].value, (ast.Constant, ast.UnaryOp)):
+        raise Refuse(f'module constant {name} is not a literal of type {ty}: `{src(hits[0].value)[:40]}`')
+    return p
+
+
+def load_self_map(tree, cls, attr, ename, enums):
+    """the unique assignment `self.<attr> = {Enum.M: 'literal', ...}` in class cls (a dict display keyed by
+    members of the closed enum, string values); no other statement of the class may mention the attribute
+    except subscript reads"""
+    cs = [n for n in tree.body if isinstance(n, ast.ClassDef) and n.name == cls]
+    if len(cs) != 1 or ename not in enums:
+        raise Refuse(f'self map {attr}: class {cls} / enum {ename} not found')
+    sets, other = [], []
+    for n in ast.walk(cs[0]):
+        if isinstance(n, ast.Attribute) and n.attr == attr:
+            if not (isinstance(n.value, ast.Name) and n.value.id == 'self'):
+                other.append(n)
+            elif isinstance(n.ctx, ast.Store):
+                sets.append(n)
+        if isinstance(n, ast.Constant) and n.value == attr:
+            other.append(n)             # setattr / getattr by name
+    assigns = [n for n in ast.walk(cs[0]) if isinstance(n, ast.Assign) and any(t in sets for t in n.targets)]
+    if len(sets) != 1 or other or len(assigns) != 1 or len(assigns[0].targets) != 1 \
+            or not isinstance(assigns[0].value, ast.Dict):
+        raise Refuse(f'self map {attr}: not assigned exactly once by a dict display')
+    for n in ast.walk(cs[0]):
+        if isinstance(n, ast.Subscript) and isinstance(n.value, ast.Attribute) and n.value.attr == attr \
+                and not isinstance(n.ctx, ast.Load):
+            raise Refuse(f'self map {attr}: an entry is written')
+    out = {}
+    for kx, vx in zip(assigns[0].value.keys, assigns[0].value.values):
+        if not (isinstance(kx, ast.Attribute) and isinstance(kx.value, ast.Name) and kx.value.id == ename
+                and kx.attr in enums[ename] and isinstance(vx, ast.Constant) and isinstance(vx.value, str)):
+            raise Refuse(f'self map {attr}: entry outside `{ename}.MEMBER: "literal"`')
+        key = f'{enum_coq(ename)}_{kx.attr}'
+        if key in out:
+            raise Refuse(f'self map {attr}: duplicate key')
+        out[key] = vx.value
+    return out
 
 
 def translate(fname, repo=None):
     """-> (Gallina text, [(param, type)], return type); raises Refuse"""
     spec = FUNCTIONS[fname]
-    path = os.path.join(repo or common.REPO, 'src', 'highdicom', spec['file'])
-    if path not in _trees:
-        _trees[path] = ast.parse(open(path).read())
-    fn = find_def(_trees[path], spec['path'])
+    root = os.path.join(repo or common.REPO, 'src', 'highdicom')
+    path = os.path.join(root, spec['file'])
+    fn = find_def(_tree(path), spec['path'])
     body = spec['fragment'](fn) if 'fragment' in spec else None
-    tr = Translator(fn, fname, params=spec.get('params'), outputs=spec.get('outputs'),
-                    attr_types=spec.get('attr_types'), body=body)
+    enums = {nm: load_enum(_tree(os.path.join(root, f)), nm) for nm, f in spec.get('enums', {}).items()}
+    consts = {nm: load_const(_tree(path), nm, ty) for nm, ty in spec.get('consts', {}).items()}
+    params = spec.get('params')
+    if 'param_names' in spec:       # fragment over parameters of the function: types from the CURRENT annotations
+        ann = {a.arg: a.annotation for a in fn.args.args + fn.args.kwonlyargs}
+        for nm in spec['param_names']:
+            if nm not in ann:
+                raise Refuse(f'{".".join(spec["path"])} has no parameter `{nm}`')
+        params = [(nm, annotation_type(ann[nm])) for nm in spec['param_names']]
+    tr = Translator(fn, fname, params=params, outputs=spec.get('outputs'),
+                    attr_types=spec.get('attr_types'), body=body, enums=enums, stores=spec.get('stores'),
+                    consts=consts)
+    for attr, ename in spec.get('self_maps', {}).items():
+        tr.self_maps[attr] = load_self_map(_tree(path), spec['path'][0], attr, ename, enums)
     text, ps, rt = tr.translate()
-    return GEN_HEADER.format(src=path, what='.'.join(spec['path'])) + indent(text), ps, rt
+    ext = bool(enums or spec.get('stores') or consts or tr.uses_q or re.search(r'\bpy_(q[a-z]+|frac_scaled)\b', text)
+               or any(ty not in (Z, OZ, B) for _, ty in ps))
+    head = (GEN_HEADER_EXT if ext else GEN_HEADER).format(src=path, what='.'.join(spec['path']))
+    return head + ''.join(enum_decl(nm, ms) for nm, ms in enums.items()) + indent(text), ps, rt
 
 
 def template_path(key):
@@ -960,8 +1561,8 @@ def template_path(key):
 
 
 def _coqc(work, path, timeout=300):
-    cmd = f'timeout {timeout} coqc -Q {common.COQ}/theories HD -Q {work} Work {path}'
-    return common.sh(cmd, cwd=work, timeout=timeout + 30)
+    cmd = f'ulimit -v 8000000; exec timeout {timeout} coqc -Q {common.COQ}/theories HD -Q {work} Work {path}'
+    return common.sh(['bash', '-c', cmd], cwd=work, timeout=timeout + 30)
 
 
 def _tail(log):
@@ -984,12 +1585,12 @@ def _obligations(work, keys):
     out = {}
     fns = list(dict.fromkeys(TARGETS[k]['fn'] for k in keys))
     try:
-        rc, log = common.coq_make(['theories/Base/PyInt.vo'] + sorted(
+        rc, log = common.coq_make(['theories/Base/PyInt.vo', 'theories/Base/PyExt.vo'] + sorted(
             {f'theories/{k.split("/")[1]}_Model.vo' for k in keys}))
     except Exception as e:  # noqa
         rc, log = 1, repr(e)
-    if rc == 0 and common.forbidden_scan(['theories/Base/PyInt.v']):
-        rc, log = 1, 'forbidden vernacular in Base/PyInt.v'
+    if rc == 0 and common.forbidden_scan(['theories/Base/PyInt.v', 'theories/Base/PyExt.v']):
+        rc, log = 1, 'forbidden vernacular in Base/PyInt.v or Base/PyExt.v'
     if rc != 0:
         return [{'name': f'T-int {k}', 'status': 'broken: Base/PyInt.v or the model did not build: ' + _tail(log)}
                 for k in keys]
